@@ -245,18 +245,23 @@ def run(chk):
     for q, kw, params, ret in (
         ("Opm::WellConnections::loadCOMPDAT", "COMPDAT", {}, None),
         ("Opm::WellConnections::loadCOMPTRAJ", "COMPTRAJ", {}, None),
-        ("Opm::(anonymous namespace)::effectiveRadius", None, {"K": L2, "D": L1}, L1),
-        ("Opm::(anonymous namespace)::peacemanDenominator", None, {"r0": L1, "rw": L1, "skin_factor": ONE}, ONE),
-        ("Opm::(anonymous namespace)::effectiveExtent", None, {"extent": L1, "ntg": ONE}, L1),
-        ("Opm::RestartIO::RstConnection::inverse_peaceman", None, {"cf": L3, "kh": L3, "rw": L1, "skin": ONE}, L1),
+        # parameter dimensions by POSITION (parameter names are free): (K, D), (r0, rw, skin), (direction, ntg, extent), (cf, kh, rw, skin)
+        ("Opm::(anonymous namespace)::effectiveRadius", None, [L2, L1], L1),
+        ("Opm::(anonymous namespace)::peacemanDenominator", None, [L1, L1, ONE], ONE),
+        ("Opm::(anonymous namespace)::effectiveExtent", None, [None, ONE, L1], L1),
+        ("Opm::RestartIO::RstConnection::inverse_peaceman", None, [L3, L3, L1, ONE], L1),
     ):
         fs = fx.fn(q)
         if q.endswith("peacemanDenominator"):
             fs = [f for f in fs if len(f["params"]) == 3]
         if not fs:
-            fs = [f for f in fx.fns if f["n"] == q.split("::")[-1] and f["file"].endswith(("WellConnections.cpp", "connection.cpp")) and len(f["params"]) == (3 if f["n"] in ("effectiveExtent", "peacemanDenominator") else len(params))]
+            fs = [f for f in fx.fns if f["n"] == q.split("::")[-1] and f["file"].endswith(("WellConnections.cpp", "connection.cpp")) and len(f["params"]) == len(params)]
         if len(fs) != 1:
             raise core.AnalysisBroken("%s: expected one definition, found %d" % (q, len(fs)))
+        if isinstance(params, list):
+            if len(params) != len(fs[0]["params"]):
+                raise core.AnalysisBroken("%s: %d parameters, the dimension table has %d" % (q, len(fs[0]["params"]), len(params)))
+            params = {p_["n"]: d_ for p_, d_ in zip(fs[0]["params"], params) if d_ is not None}
         D = Dims(fs[0], items.get(kw or "COMPDAT", {}), chk, r_dim, params)
         D.ret = ret
         D.run()
@@ -267,27 +272,60 @@ def run(chk):
     r_rep = chk.rule("C06.replace", "re-entering COMPDAT/COMPTRAJ for a cell that already has a connection overwrites that one element and carries completion number, sort value, segment and perforation range over", floor=2)
     for q in ("Opm::WellConnections::loadCOMPDAT", "Opm::WellConnections::loadCOMPTRAJ"):
         f = fx.fn1(q)
-        env = {v["n"]: show(v.get("init")) for n in walk(f["body"]) if n["k"] == "Decl" for v in n["vars"] if v.get("init") is not None}
-        over = [n for n in walk(f["body"]) if (n["k"] in ("OpCall", "Bin")) and n.get("op") == "=" and show((n.get("a") or n.get("c"))[0]).replace(" ", "") in ("(*prev)", "*prev")]
         key = q.split("::")[-1]
-        chk.instance(r_rep, key, sample=dict(function=key, overwrite_sites=len(over), compl_num=env.get("compl_num"), css_ind=env.get("css_ind"), conSegNo=env.get("conSegNo"), perf_range=env.get("perf_range")))
+        # the iterator to the existing connection: the local initialised from a find_if over this->m_connections
+        its = [v for n in walk(f["body"]) if n["k"] == "Decl" for v in n["vars"] if isinstance(v.get("init"), dict)
+               and any(c.get("k") == "Call" and (c.get("fn") or "").split("<")[0].endswith("find_if") for c in walk(v["init"])) and "m_connections" in show(v["init"])]
+        if len(its) != 1:
+            raise core.AnalysisBroken("%s: the look-up of an existing connection (find_if over m_connections) was not recognised (%d candidates)" % (key, len(its)))
+        P = its[0]["n"]
+
+        def on_prev(e):
+            """method name if e is <prev>-><method>()"""
+            e = strip(e)
+            while e.get("k") in ("Ctor", "InitList", "Temp", "Bind") and len([a for a in (e.get("a") or e.get("c") or []) if a.get("k") != "DefArg"]) == 1:
+                e = strip([a for a in (e.get("a") or e.get("c")) if a.get("k") != "DefArg"][0])
+            m_, o_ = meth(e)
+            if m_ and o_ is not None:
+                o2 = strip(o_)
+                while o2.get("k") in ("Un", "OpCall", "Paren") and (o2.get("c") or o2.get("a")):
+                    o2 = strip((o2.get("c") or o2.get("a"))[0])
+                if o2.get("k") == "Ref" and o2.get("n") == P:
+                    return m_
+            return None
+        carried = {}
+        for n in walk(f["body"]):
+            if n["k"] == "Decl":
+                for v in n["vars"]:
+                    if isinstance(v.get("init"), dict) and on_prev(v["init"]):
+                        carried.setdefault(on_prev(v["init"]), []).append(v["n"])
+
+        def is_deref_prev(e):
+            e = strip(e)
+            if e.get("k") in ("Un", "OpCall") and e.get("op") == "*":
+                x = strip((e.get("c") or e.get("a"))[0])
+                return x.get("k") == "Ref" and x.get("n") == P
+            return False
+        over = [n for n in walk(f["body"]) if (n["k"] in ("OpCall", "Bin")) and n.get("op") == "=" and is_deref_prev((n.get("a") or n.get("c"))[0])]
+        chk.instance(r_rep, key, sample=dict(function=key, overwrite_sites=len(over), carried_over={m_: v_ for m_, v_ in carried.items()}))
         if len(over) != 1:
-            chk.violation(r_rep, key + ":site", "%s: expected exactly one in-place overwrite `*prev = Connection{...}`, found %d" % (key, len(over)), f["file"], f["l"])
+            chk.violation(r_rep, key + ":site", "%s: expected exactly one in-place overwrite `*existing = Connection{...}`, found %d" % (key, len(over)), f["file"], f["l"])
             continue
-        want = {"compl_num": "prev.complnum()", "css_ind": "prev.sort_value()", "conSegNo": "prev.segment()", "perf_range": "prev.perf_range()"}
-        for v, w in want.items():
-            got = (env.get(v) or "").replace("(->prev)", "prev").replace("(*prev)", "prev").replace("->", ".")
-            if got != w:
-                chk.violation(r_rep, key + ":" + v, "%s: %s is taken from `%s`; it must be the existing connection's %s" % (key, v, env.get(v), w), f["file"], f["l"])
+        want = {"complnum": "completion number", "sort_value": "sort value", "segment": "segment number", "perf_range": "perforation range"}
+        missing = [w for m_, w in want.items() if len(carried.get(m_, [])) != 1]
+        for w in missing:
+            chk.violation(r_rep, key + ":" + w.replace(" ", "_"), "%s: the %s of the existing connection is no longer saved before the connection is overwritten" % (key, w), f["file"], f["l"])
+        if missing:
+            continue
+        v_cn, v_sv, v_sg, v_pr = (carried[m_][0] for m_ in ("complnum", "sort_value", "segment", "perf_range"))
         rhs = (over[0].get("a") or over[0].get("c"))[1]
-        args = [show(a) for a in walk(rhs) if False]
         ctor = [x for x in walk(rhs) if x["k"] in ("Ctor", "InitList") and len(x.get("a", x.get("c", []))) >= 10]
-        names = [show(a) for a in (ctor[0].get("a") or ctor[0].get("c"))] if ctor else []
-        if "compl_num" not in names or "css_ind" not in names:
+        names = [show(strip(a)) for a in (ctor[0].get("a") or ctor[0].get("c"))] if ctor else []
+        if v_cn not in names or v_sv not in names:
             chk.violation(r_rep, key + ":ctor", "%s: the replacement connection is not built with the old completion number and sort value (%s)" % (key, names), f["file"], over[0]["l"])
-        us = [c for c in walk(f["body"]) if c["k"] == "MCall" and c.get("m") == "updateSegment" and "prev" in show(c.get("obj"))]
-        uargs = [show(a) for a in us[0]["a"]] if us else []
-        if len(us) != 1 or uargs[0] != "conSegNo" or uargs[2] != "css_ind" or "perf_range" not in uargs[3]:
+        us = [c for c in walk(f["body"]) if c["k"] == "MCall" and c.get("m") == "updateSegment" and any(x.get("k") == "Ref" and x.get("n") == P for x in walk(c.get("obj") or {}))]
+        uargs = [show(strip(a)) for a in us[0]["a"]] if us else []
+        if len(us) != 1 or len(uargs) < 4 or uargs[0] != v_sg or uargs[2] != v_sv or v_pr not in uargs[3]:
             chk.violation(r_rep, key + ":segment", "%s: segment/perforation range of the replaced connection are not restored (updateSegment%s)" % (key, uargs), f["file"], f["l"])
         # nothing else writes the container
         other = []
@@ -303,9 +341,11 @@ def run(chk):
     for f in fx.fns:
         if f.get("cls") != "Opm::Well" or not f.get("body"):
             continue
-        news = [v for n in walk(f["body"]) if n["k"] == "Decl" for v in n["vars"] if v["n"] == "new_connections" and v.get("init") is not None and "make_shared" in show(v["init"])]
+        news = [v for n in walk(f["body"]) if n["k"] == "Decl" for v in n["vars"] if isinstance(v.get("init"), dict)
+                and any(c.get("k") == "Call" and (c.get("fn") or "").split("<")[0].endswith("make_shared") and "WellConnections" in (c.get("fn") or "") + " ".join(c.get("targs") or []) for c in walk(v["init"]))]
         if not news:
             continue
+        NEWC = news[0]["n"]
         init = show(news[0]["init"])
         loops = [n for n in walk(f["body"]) if n["k"] == "ForRange" and "this.connections" in show(n["range"])]
         if not loops:
@@ -322,7 +362,7 @@ def run(chk):
         body = stmt_list(lp["body"])
         lv = lp["var"]["n"]
         def is_add(c):
-            return c["k"] == "MCall" and c.get("m") == "add" and "new_connections" in show(c.get("obj"))
+            return c["k"] == "MCall" and c.get("m") == "add" and any(x.get("k") == "Ref" and x.get("n") == NEWC for x in walk(c.get("obj") or {}))
 
         def eff(s_):
             k_ = s_["k"]
@@ -371,7 +411,7 @@ def run(chk):
         if rng not in ("(*this.connections)",):
             chk.violation(r_reb, key + ":range", "Well::%s iterates `%s`, not the whole connection set" % (key, rng), f["file"], lp["l"])
         ups = [c for c in walk(f["body"]) if c["k"] == "MCall" and c.get("m") == "updateConnections"]
-        if len(ups) != 1 or "new_connections" not in show(ups[0]["a"][0]):
+        if len(ups) != 1 or not any(x.get("k") == "Ref" and x.get("n") == NEWC for x in walk(ups[0]["a"][0])):
             chk.violation(r_reb, key + ":install", "Well::%s does not install the rebuilt set with updateConnections(new_connections, ...)" % key, f["file"], f["l"])
     chk.extra["rebuild_functions"] = n_fn
 
@@ -412,6 +452,23 @@ def run(chk):
     # ---- C06.frame: net-to-gross scales the VERTICAL cell extent: index 2 of a triple that is still in the grid's
     # x,y,z order, never of one that has been permuted into the completion's order
     r_fr = chk.rule("C06.frame", "net-to-gross multiplies component [2] of a triple in grid (x,y,z) order, not of one permuted into completion order; a function that receives ntg uses it", floor=5)
+    # which parameters carry a net-to-gross ratio: those that receive the cell's `ntg` member (or such a parameter) at a call site
+    ntg_params = {}
+    grew = True
+    while grew:
+        grew = False
+        for f in fx.fns:
+            if not f["file"].endswith(WC) or not f.get("body"):
+                continue
+            mine = {f["params"][i]["n"] for i in ntg_params.get(f["q"], ()) if i < len(f.get("params") or [])}
+            for c in walk_fn(f):
+                if c["k"] in ("Call", "MCall") and c.get("fn"):
+                    for i, a_ in enumerate(c.get("a") or []):
+                        a0 = strip(a_)
+                        if (a0.get("k") == "Mem" and a0.get("n") == "ntg") or (a0.get("k") == "Ref" and a0.get("n") in mine):
+                            if i not in ntg_params.setdefault(c["fn"], set()):
+                                ntg_params[c["fn"]].add(i)
+                                grew = True
     for f in fx.fns:
         if not f["file"].endswith(WC) or not f.get("body"):
             continue
@@ -445,8 +502,9 @@ def run(chk):
                 elif n["k"] == "Bin" and n.get("asg") and n["op"] == "=" and strip(n["c"][0])["k"] == "Ref" and strip(n["c"][0])["n"] not in permuted and is_permuted_expr(n["c"][1]):
                     permuted.add(strip(n["c"][0])["n"])
                     changed = True
-        if any(p_["n"] == "ntg" for p_ in f.get("params", [])):
-            uses = [x for x in walk_fn(f) if x["k"] == "Ref" and x["n"] == "ntg"]
+        ntg_names = {f["params"][i]["n"] for i in ntg_params.get(f["q"], ()) if i < len(f.get("params") or [])}
+        if ntg_names:
+            uses = [x for x in walk_fn(f) if x["k"] == "Ref" and x["n"] in ntg_names]
             chk.instance(r_fr, "%s:uses-ntg" % f["q"].split("::")[-1], sample=dict(function=f["q"], uses=len(uses)))
             if not uses:
                 chk.violation(r_fr, "%s:uses-ntg" % f["q"].split("::")[-1], "%s receives the cell's net-to-gross ratio but never uses it: the vertical extent / thickness is not reduced" % f["q"], f["file"], f["l"])
@@ -455,7 +513,7 @@ def run(chk):
                 continue
             a, b = strip(n["c"][0]), strip(n["c"][1])
             def is_ntg(x):
-                return (x["k"] == "Ref" and x["n"] == "ntg") or (x["k"] == "Mem" and x["n"] == "ntg")
+                return (x["k"] == "Ref" and x["n"] in ntg_names) or (x["k"] == "Mem" and x["n"] == "ntg")
             other = b if is_ntg(a) else a if is_ntg(b) else None
             if other is None:
                 continue
